@@ -84,6 +84,19 @@ CLAIMED["C06"] = (
     "DESIGN.md §3 C06",
     "Partial claim (error clauses).  Include recursion accounting is decided under C11.")
 
+CLAIMED["C14"] = (
+    "must-pass-through rule (process_err on the returned error for every Err exit of the interpreter loop) + error-discipline rule (no unwrap of fmt::Result in error/debug formatting) + provenance rule for Span fields + who-may-call for raw emission",
+    "Static rule check: each of the ~80 `return Err(e)` exits of eval_impl is dominated by process_err(&mut e, pc, "
+    "state) on that same error with no reassignment in between (one reviewed exception: the raw sink write error); "
+    "process_err looks up the span/line of the failing pc and only fills a missing location; parser entry points "
+    "return through attach_location_to_error; no fmt::Result is unwrapped in error.rs/debug.rs; every value stored "
+    "into a Span comes from tokenizer position fields, byte offsets change only by a character's len_utf8 and only "
+    "`advance` moves the tokenizer offset (by slicing the input); instructions are emitted without a line record "
+    "only at reviewed sites.  Decides that locations are attached on all error paths and that reported ranges are "
+    "character-aligned by construction; that the line is the *correct* one (shift-by-N) is value-level and not decided.",
+    "DESIGN.md §3 C14",
+    "std str slicing panics on non-boundaries (so a wrong byte count cannot produce a bad range silently).")
+
 NOT_APPLICABLE = {
 }
 
